@@ -1755,5 +1755,10 @@ class MDC(Packet):
 
     def parse(self, packet):
         super(MDC, self).parse(packet)
+        if self.header.length != 20:
+            # "A Modification Detection Code packet MUST have a length of 20 octets": taking 20 octets whatever
+            # the header declares leaves the others to be read as further packets, or eats into the next one
+            raise ValueError("Expected: 20 octets of modification detection code. Got: {:d}".format(self.header.length))
+
         self.mdc = binascii.hexlify(packet[:20])
         del packet[:20]
